@@ -94,15 +94,15 @@ def run_case(case: Dict[str, Any], ctx) -> None:
         def layer(i, t, inner=None):
             r, s = U.residual_split(t, taus[i])
             if record and r.requires_grad:
-                r.register_hook(lambda g, i=i: hooks.append(("in", i, g.clone())))
+                r.register_hook(lambda g, i=i: hooks.append(("in", i, g.clone())) if g is not None else None)
             b = fs[i](r)
             if inner is not None:
                 b = inner(b)
             if record and b.requires_grad:
-                b.register_hook(lambda g, i=i: hooks.append(("out", i, g.clone())))
+                b.register_hook(lambda g, i=i: hooks.append(("out", i, g.clone())) if g is not None else None)
             y = U.residual_add(b, s, taus[i])
             if record and y.requires_grad:
-                y.register_hook(lambda g, i=i: hooks.append(("sum", i, g.clone())))
+                y.register_hook(lambda g, i=i: hooks.append(("sum", i, g.clone())) if g is not None else None)
             return y
         if not nested:
             t = x
